@@ -120,6 +120,11 @@ class World:
         if self.frozen:
             return {'seq': self.seq + 1, 't': self.loop.time(), 'side': side, 'ev': kind, 'after_trace': True}
         self.seq += 1
+        # events other than keepalive traffic: what the heal phase of a program looks at to decide that nothing happens
+        # any more (a connection with a short keepalive period never falls silent)
+        if not ((kind in ('send', 'recv') and kw.get('f', {}).get('type') == 'KEEPALIVE') or
+                (kind == 'queued' and kw.get('ftype') == 'KeepAliveFrame')):
+            self.progress = getattr(self, 'progress', 0) + 1
         e = {'seq': self.seq, 't': self.loop.time(), 'side': side, 'ev': kind}
         e.update(kw)
         self.log.append(e)
